@@ -538,13 +538,23 @@ pub fn generate(ctx: &mut Ctx) {
         for (algo, max) in [("hilbert2d", MAX_ORDER_2D), ("hilbert3d", MAX_ORDER_3D)] {
             let p = arrays(n, &[3]).pop().unwrap();
             // above the maximum: every combination of lengths
-            for order in [max + 1, 64, u32::MAX] {
+            // (also on degenerate point sets - all points identical, all on one axis, so that a 3-D
+            // cloud is planar / collinear - and at the OTHER dimension's maximum and just above it:
+            // the order test must not depend on the shape of the cloud nor be borrowed from 2-D)
+            for order in [max + 1, MAX_ORDER_2D, MAX_ORDER_2D + 1, 64, u32::MAX] {
+                if order <= max {
+                    continue;
+                }
                 for &npts in &lens {
                     for &nw in &lens {
-                        let mut c = Case::new(algo, p.clone(), ones(nw));
-                        c.npts = npts;
-                        c.order = order;
-                        emit(ctx, &mut seen, &c);
+                        let shapes: &[usize] = if npts >= 2 { &[0, 1, 2] } else { &[0] };
+                        for &shape in shapes {
+                            let mut c = Case::new(algo, p.clone(), ones(nw));
+                            c.npts = npts;
+                            c.shape = shape;
+                            c.order = order;
+                            emit(ctx, &mut seen, &c);
+                        }
                     }
                 }
             }
